@@ -1,8 +1,8 @@
 CONSTANTS
   Kinds = {"finalize_wrapper", "finalize_decorator", "contingency"}
-  MaxOps = 9
-  BodyMsgs = 5
-  HandlerMsgs = 3
+  MaxOps = 12
+  BodyMsgs = 6
+  HandlerMsgs = 4
   Thrown = {"Err", "Stop", "Abort", "Base"}
   InnerRaise = {"ErrI", "BaseI"}
   CatchThrow = TRUE
